@@ -34,6 +34,36 @@ Definition heap0 (xv : list (list Q)) : heap Q * ref * ref :=
   let out := seq n n in
   (put x xv (mkH (fun _ => junk) (n + n)), x, out).
 
+(* boolean form of Proofs.diag_ok / Proofs.wfop: evaluated on every case, so the premises of the
+   theorems are seen to hold for the operators the library really builds *)
+Definition shapeb (a b : list (list Q)) : bool := Zeqs (map (fun l => Z.of_nat (length l)) a) (map (fun l => Z.of_nat (length l)) b).
+Fixpoint diag_okb (e : op Q) (v : list (list Q)) : bool :=
+  match e with
+  | OLeaf _ => true
+  | OSum a b | OPw a b => diag_okb a v && diag_okb b v
+  | OVecSum a _ | OLScal a _ | OLVec a _ => diag_okb a v
+  | OComp a b => diag_okb b v && diag_okb a (pure b v)
+  | ORScal a s => diag_okb a (scal s v)
+  | ORVec a w => diag_okb a (e2 nmul v w)
+  | ODiag k a b => shapeb (pure a (firstn k v)) (firstn k v) && shapeb (pure b (skipn k v)) (skipn k v)
+                   && diag_okb a (firstn k v) && diag_okb b (skipn k v)
+  end.
+Definition wf_leafb (n : nat) (l : leaf Q) : bool :=
+  match l with
+  | LL2 _ _ _ _ (Some gv) => Nat.eqb (length gv) n
+  | LL2Sq _ (El sv) (Some _) => Nat.eqb (length sv) n
+  | LCCL2Sq _ (El sv) (Some _) => Nat.eqb (length sv) n
+  | LConst c => Nat.eqb (length c) n
+  | _ => true
+  end.
+Fixpoint wfopb (n : nat) (e : op Q) : bool :=
+  match e with
+  | OLeaf l => wf_leafb n l
+  | OSum a b | OComp a b | OPw a b => wfopb n a && wfopb n b
+  | OVecSum a _ | OLScal a _ | ORScal a _ | OLVec a _ | ORVec a _ => wfopb n a
+  | ODiag k a b => Nat.leb k n && wfopb k a && wfopb (n - k) b
+  end.
+
 Definition check (k : case) : bool :=
   let '(h, x, out) := heap0 (c_x k) in
   let e := c_op k in
@@ -41,7 +71,8 @@ Definition check (k : case) : bool :=
   let h_al := run_ip e x x h in
   let h_sep := run_ip e x out h in
   let '(r, h_oop) := run_oop e x h in
-  Qssclose tol tol (c_oop k) want
+  wfopb (length (c_x k)) e && diag_okb e (c_x k)
+  && Qssclose tol tol (c_oop k) want
   && Qssclose tol tol (c_alias k) want
   && Qssclose tol tol (c_sep k) want
   && Qssclose tol tol (c_alias k) (get h_al x)
